@@ -4,7 +4,10 @@ A separator configuration is a pair (dec, thou). Literals are built from a *cano
 string ('-1234567.25', digits with an optional '.' fraction) so that the value under
 test is exactly float(canonical)."""
 
+import decimal
 from decimal import Decimal, ROUND_HALF_EVEN, ROUND_HALF_UP, ROUND_FLOOR
+
+decimal.getcontext().prec = 1200
 
 SEP_CONFIGS = [(',', '.'), ('.', ','), ('.', ''), (',', '')]   # (decimal, thousands)
 DEFAULT_SEP = (',', '.')
@@ -114,11 +117,11 @@ def check_print(x, out, sep, digits, remove_zero, rounding=True):
         back = float(plain + ('.' + fp if fp else ''))
     except ValueError:
         return 'unreadable'
-    sig = (plain + fp).lstrip('0').rstrip('0') if fp else plain.lstrip('0')
+    sig = (plain + fp).lstrip('0').rstrip('0')
     if back != abs(x):
         # removal of an all-zero fraction cannot apply here (a non-zero fraction was lost)
         return 'digits read back as %r, value is %r' % (back, abs(x))
-    if len((plain + fp).lstrip('0')) > 17 and len(sig) > 17:
+    if len(sig) > 17:
         return 'more than 17 significant digits'
     if remove_zero and fp and fp.strip('0') == '':
         return 'zero fraction not removed'
